@@ -41,6 +41,9 @@ class LSkel(Skel):
         if k == "MethodCall":
             m = e0["method"]
             inner = self.ops(e0["recv"])
+            cb_ = self.combinator(e0, inner)
+            if cb_ is not None:
+                return cb_
             for a in e0["args"]:
                 if m in ITER_LOOPS and m != "filter" and strip(a).get("k") == "Closure":
                     b_ = self.norm(self.ops(strip(a)["body"]))          # `it.for_each(|x| B)` is `for x in it { B }`
